@@ -206,6 +206,17 @@ def run(ctx, crate):
         else:
             allowed = member is not None and g == [[]]
         one_loop = len(d.loops_of(p.bb)) == (2 if kind == "contract" else 1)
+        # the filling loop visits the definition's own member list, every element, in list order (no skip / take / rev / filter adaptor, no early exit)
+        import order as O
+        inner = sorted([lp for lp in O.loops_of_body(d) if p.bb in lp.blocks], key=lambda lp: len(lp.blocks))
+        whole = False
+        if inner and member is not None:
+            lp = inner[0]
+            it = lp.iterable
+            adapt = [c for c in T.calls_in(it) if c[1].startswith("std::iter::Iterator::") or c[1].startswith(("core::slice::<impl [T]>::", "std::slice::<impl [T]>::")) and not c[1].endswith(("::iter", "::iter_mut"))]
+            fo = T.field_of(it)
+            whole = not adapt and fo is not None and it[2][2] in ("parts", "fields") and T.contains(member, ("elem", it)) and not lp.exits()[1] and lp.order == "ordered"
+        one_loop = one_loop and whole
         obs.append(Ob("R10.report", fn, "the list holds the size of every member, in declaration order", bool(built and allowed and one_loop),
                       expected="for member in members: sizes.push(get_type_size(member.ty))", found="value=%s guard=%s" % (show(val)[:70], S.guard_str(g)[-120:])))
     # reported locations
